@@ -284,6 +284,9 @@ func c27RunTrial(rng *rand.Rand, mixed bool, mode string) (issues []c27Issue, re
 		select {
 		case <-hs.held:
 		case <-p1done: // Reload no longer reads the rules after the config: nothing to stage
+			hs.mu.Lock()
+			hs.hold = false
+			hs.mu.Unlock()
 		}
 		writeC(class)
 		gets := hs.cfgGets.Load()
@@ -301,10 +304,10 @@ func c27RunTrial(rng *rand.Rand, mixed bool, mode string) (issues []c27Issue, re
 			}
 		}
 		if reading {
-			for i := 0; i < 50000000; i++ {
+			for i := 0; i < 20000000; i++ {
 				select {
 				case <-p2done:
-					i = 50000000
+					i = 20000000
 				default:
 					runtime.Gosched()
 				}
